@@ -136,9 +136,14 @@ def one_case(ns, fam, rng, entry, tgt_kind, buffered):
         if isinstance(arg, dict):
             arg["nums"] = [1, 2, 3]
             arg["deep"] = {"l": [[0]], "d": {"x": [True]}}
+            # positions that hold a scalar-only list in memory receive, through the in-place merge,
+            # a list with nested containers (and vice versa)
+            arg["s"] = [1, {"k": [0]}, [2]]
+            arg["c"] = {"z": [{"w": [1]}, 2]}
         else:
             arg.append([1, 2, 3])
             arg.append({"l": [[0]], "d": {"x": [True]}})
+            arg.insert(1, [2, {"m": [1]}, [3]])
         snapshot = copy.deepcopy(arg)
         try:
             holder = apply_entry(world, root, tgt, root_is_dict if entry == "ctor" else is_dict_tgt, entry, arg, 0)
